@@ -354,6 +354,14 @@ func (vc *VC) calleeFootprint(fc *FuncContract, comp, av string, env *Env, pre *
 					parts = append(parts, sx(">=", sx("rootOf", av), "|alloc@0|"))
 					continue
 				}
+				if mi.In != nil {
+					sv := vc.evalVal(mi.In, env, pre, pre)
+					if sv.K != KSlice {
+						panic(unsupported("'in' needs a slice"))
+					}
+					parts = append(parts, and(sx("(_ is elem)", av), eq(sx("epar", av), sx("sarr", sv.S)), sx("<=", sx("soff", sv.S), sx("eidx", av)), sx("<", sx("eidx", av), sx("+", sx("soff", sv.S), sx("slen", sv.S)))))
+					continue
+				}
 				if mi.After != nil {
 					ob := vc.evalVal(mi.After, env, pre, pre)
 					parts = append(parts, sx("<", sx("rootOf", vc.addrOf(ob)), sx("rootOf", av)))
